@@ -747,6 +747,8 @@ def every_statement_is_visited(ctx, rid):
                         dd = f.derived_from(op[1][0])
                         if any(x.name.endswith("Vec::<T, A>::len") or x.name.endswith("::len") for x in dd["calls"]):
                             kind = "len"
+        elif not idx and any(x.name.endswith("]>::split_first") for x in d["calls"]):
+            start, kind = 1, "const"      # `let Some((first, rest)) = stmts.split_first()`: rest is stmts[1..]
         elif not idx and a and a[0] != "k":
             kind = "whole"
         dom_visits = [v for v in visits if blocks_dominate(f, [v.bb], c.bb)]
